@@ -95,6 +95,9 @@ func (ks *Kafka) SendEvent(ctx *fiber.Ctx, meta EventMeta) {
 				continue
 			}
 			key := *obj.Key
+			if meta.failed(key) {
+				continue
+			}
 			schema := createEventSchema(ctx, meta, ConfigurationIdWebhook)
 			schema.Records[0].S3.Object.Key = key
 			schema.Records[0].S3.Object.VersionId = obj.VersionId
